@@ -303,7 +303,8 @@ def render(stmts, rng, feat, end=False, final_newline=True):
                     if "commas" in feat and r < 0.35:
                         sep = gap(False) + "," + gap(False)
                         if "wrap" in feat and rng.random() < 0.3:
-                            sep += eol() + indent()
+                            # the line break after the comma, or before it (the comma then leads the continuation line)
+                            sep = (sep + eol() + indent()) if rng.random() < 0.5 else (gap(False) + eol() + indent() + "," + gap(False))
                     elif "wrap" in feat and r < 0.6:
                         sep = gap(False) + eol() + indent()
                     else:
